@@ -139,10 +139,24 @@ claimed["C16"] = dict(
 
 pending = {}  # id -> reason, for properties whose check is not built yet
 
-not_applicable = {
- "C06": "static analysis cannot reach it: equality of complete observable states across a forward and a backward run over all histories is a property of runtime values; the structural facts around undo that are checkable (undone additions leave the index, moves keep the node, undo pairs and translates consistently) are claimed under C10/C09/C05 (DESIGN.md section 7)",
- "C08": "static analysis cannot reach it: set equalities and canonicity of recomputed positions/hashes after calcPrevPosition arithmetic; nothing structural to anchor a necessary condition on (DESIGN.md section 7)",
-}
+not_applicable = {}
+
+claimed["C06"] = dict(
+   text="Thin claim. Equality of the complete observable state before a block and after its undo is numerical and is NOT decided. Decided for all inputs, as necessary conditions: "
+        "in the closure of the three Undo entries a caller never drops the updated list a helper returns while it goes on using the list it passed in (each undo step sees what the "
+        "previous one left); every undone addition leaves the leaf index; a node moved back is re-inserted on every path that deletes it; the undone block's targets are used in "
+        "the layout of the forest before the block and hashes are paired with positions of one order class; each forest's Undo runs its undo-one-addition step - which decrements "
+        "the leaf count on every success path - on every iteration of a loop bounded by the block's number of additions.",
+   ref="DESIGN.md 5/C06, engines E2+E7",
+   technique="static dataflow (dropped-result / later-use analysis), must-pass-through and dominance rules on go/ssa, order-class and coordinate-layout abstract interpretation (custom analyzer)")
+
+claimed["C08"] = dict(
+   text="Thin claim. That the undone cached proof is canonical, verifies and holds exactly the right leaves is position arithmetic and set equality and is NOT decided. Decided for "
+        "all inputs, as necessary conditions: in (*Proof).Undo and everything it reaches hashes are paired with positions of one order class and caller order never reaches a "
+        "requires-sorted sink; the updated lists returned by the undo helpers are taken over by the caller; the block's additions are reverted before its deletions and the deletion "
+        "step works with the leaf count before the additions (numLeaves - numAdds).",
+   ref="DESIGN.md 5/C08, engines E2+E7",
+   technique="static dominance / dataflow rules on go/ssa and order-class abstract interpretation (custom analyzer)")
 
 checks = []
 na = []
@@ -177,7 +191,7 @@ m = {
               "kind_free_text": "repository-specific static analyzer: go/packages + go/types + go/ssa + VTA/CHA call graph; path/dominance rules, lockset, slice-ownership abstract interpretation, flow- and context-sensitive order-class and coordinate-layout abstract interpretation, io discipline"}],
  "checks": checks,
  "not_applicable": na,
- "notes": "All checks are static (no utreexo code is executed). Eleven genuine defects reported by the rules on the pinned tree were repaired in /repo by 'fix:' commits; see known_findings.json and DESIGN.md section 6. 60 independently seeded defects are kept under seeded/ (DESIGN.md section 10); those a rule reports are re-applied as self-test variants by every thorough run.",
+ "notes": "All checks are static (no utreexo code is executed). Fifteen genuine defects reported by the rules on the pinned tree were repaired in /repo by 'fix:' commits; see known_findings.json and DESIGN.md section 6. The independently seeded defects are kept under seeded/ (DESIGN.md section 10); those a rule reports are re-applied as self-test variants by every thorough run.",
 }
 json.dump(m, open(os.path.join(V, "MANIFEST.json"), "w"), indent=1)
 print("checks:", [c["property_id"] for c in checks], "not_applicable:", [n["property_id"] for n in na])
